@@ -288,6 +288,8 @@ func raceMain(args []string) {
 			{"d.html", `<h1>d</h1><p :with="a := ${x} b := ${y}" :text="${a}">o</p>`},
 			{"e.html", `<h1>e</h1><p :range="i, x, z : orders" :text="${x}">o</p><p :remove="nonsense">r</p>`},
 			// a fragment name computed from THIS execution's data (literal text followed by a block)
+			// blocks that mention only literals and BUILT-IN names: some executions' data shadow the built-in, others do not
+			{"h.html", `<p :text="${string(65)}">o</p><i :text="${len('abc')}">o</i><b :with="len := ${7}" :text="${len}">o</b>`},
 			{"g.html", `<template :define="card-a">A</template><template :define="card-b">B</template><p :insert="card-${kind}">x</p><q :replace="card-${kind}">y</q>`},
 		}
 		for round := 0; round < *rounds; round++ {
@@ -305,7 +307,13 @@ func raceMain(args []string) {
 			}
 			jobs := make([]job, G)
 			for g := range jobs {
-				switch (g + round) % 9 {
+				switch (g + round) % 12 {
+				case 9:
+					jobs[g] = job{"h.html", map[string]any{}, "<p>A</p><i>3</i><b>7</b>"}
+				case 10:
+					jobs[g] = job{"h.html", map[string]any{"string": func(any) string { return "S" }, "len": func(any) int { return 300 }}, "<p>S</p><i>300</i><b>7</b>"}
+				case 11:
+					jobs[g] = job{"h.html", map[string]any{"string": 5}, " ERR"}
 				case 6:
 					jobs[g] = job{"g.html", map[string]any{"kind": "a"}, "<p>A</p>A"}
 				case 7:
